@@ -136,6 +136,14 @@ func runC06(c *Ctx) {
 				return boolfn.BoolVal(m.Var(atomIs4)), true
 			case "(net/netip.Addr).Is6":
 				return boolfn.BoolVal(m.And(m.Var(atomValid), m.Not(m.Var(atomIs4)))), true
+			case "(net/netip.Addr).BitLen":
+				// 0 for the invalid address, 32 for IPv4, 128 for IPv6
+				v4, v6, z := ev.Const(32, 64, true), ev.Const(128, 64, true), ev.Const(0, 64, true)
+				bits := make([]int, 64)
+				for i := range bits {
+					bits[i] = m.Ite(m.Var(atomValid), m.Ite(m.Var(atomIs4), v4.Bits[i], v6.Bits[i]), z.Bits[i])
+				}
+				return boolfn.Val{Kind: boolfn.KBits, Bits: bits, Signed: true}, true
 			case "(net/netip.Addr).As4":
 				return ev.ArrayInput(base4, 4), true
 			case "(net/netip.Addr).As16":
@@ -212,6 +220,9 @@ func runC06(c *Ctx) {
 		}
 		want := m.And(m.Var(atomValid), m.Ite(m.Var(atomIs4), spec[4], spec[16]))
 		got := rs[0].Bits[0]
+		// an invalid address is never IPv4: compare on the feasible atom values only
+		feasible := m.Or(m.Var(atomValid), m.Not(m.Var(atomIs4)))
+		got, want = m.And(got, feasible), m.And(want, feasible)
 		reason := "the exported function denotes IsValid ∧ (Is4 ? doc4(As4) : doc6(As16)): invalid address rejected, each family tested against its own documented list"
 		if got != want {
 			w := m.Witness(m.Xor(got, want))
